@@ -150,10 +150,11 @@ structure Cfg where
   uniqueKeys   : Bool     -- fixes/C17-multiuse.patch: every distinct ForwardRef object is registered
   resolveUnion : Bool     -- fixes/C17-union-resolve.patch: resolution descends into Optional/Union args
   inheritRefs  : Bool     -- fixes/C17-inherited-refs.patch: a subclass resolves its base's pending refs first
+  abortKeeps   : Bool     -- fixes/C17-abort-keeps-pending.patch: an aborted resolution pops nothing
   deriving Repr
 
-def Cfg.fixed : Cfg := ⟨true, true, true⟩
-def Cfg.legacy : Cfg := ⟨false, false, false⟩
+def Cfg.fixed : Cfg := ⟨true, true, true, true⟩
+def Cfg.legacy : Cfg := ⟨false, false, false, false⟩
 
 def lookupCell (c : Cell) : List (Cell × Ty) → Option Ty
   | [] => none
@@ -170,20 +171,19 @@ def setP (k : Name) (p : PState) : List (Name × PState) → List (Name × PStat
 /-! ### Class / function creation: annotation → type, with its three effects -/
 
 /-- `register_forward_ref` on a ForwardRef inside a generic (rule.py:62-97), the type it yields.
-Visibility is constant during one creation, so the result depends on the cells as they were when
-the creation started (a cell evaluated meanwhile was evaluated because its name is visible). -/
-def refTy (cells : List (Cell × Ty)) (vis : Name → Bool) (c : Cell) (n : Name) : Ty :=
-  match lookupCell c cells with
-  | some v => v                      -- rule.py:62-64: already evaluated, take its value
-  | none => if vis n then .data n    -- rule.py:65-76: evaluated now
-            else .fref c             -- rule.py:79-95: stays a ForwardRef, registered
+After fixes/C17-stale-memoised-ref.patch the name is always looked up in the namespace of the
+declaration, also when typing's memoised ForwardRef object already carries a value (evaluated for
+another declaration): visible → its class; not visible → stays a ForwardRef and is registered. -/
+def refTy (vis : Name → Bool) (c : Cell) (n : Name) : Ty :=
+  if vis n then .data n              -- rule.py:65-78: evaluated now
+  else .fref c                       -- rule.py:81-97: stays a ForwardRef, registered
 
 mutual
 def mkTy (cells : List (Cell × Ty)) (vis : Name → Bool) : Ann → Ty
   | .int => .int
   | .none => .none
   | .name n => .data n
-  | .quoted c n => refTy cells vis c n
+  | .quoted c n => refTy vis c n
   | .list a => .list (mkTy cells vis a)
   | .dict a => .dict (mkTy cells vis a)
   | .con k a => .con k (mkTy cells vis a)
@@ -197,7 +197,7 @@ end
 /- cells evaluated during the creation (rule.py:68-73), in traversal order -/
 mutual
 def evals (cells : List (Cell × Ty)) (vis : Name → Bool) : Ann → List (Cell × Ty)
-  | .quoted c n => if (lookupCell c cells).isNone && vis n then [(c, .data n)] else []
+  | .quoted c n => if vis n then [(c, .data n)] else []
   | .list a => evals cells vis a
   | .dict a => evals cells vis a
   | .con _ a => evals cells vis a
@@ -212,7 +212,7 @@ end
 /- registrations requested during the creation (rule.py:79-95), in traversal order -/
 mutual
 def regs (cells : List (Cell × Ty)) (vis : Name → Bool) : Ann → List (Cell × Name)
-  | .quoted c n => if (lookupCell c cells).isNone && !vis n then [(c, n)] else []
+  | .quoted c n => if !vis n then [(c, n)] else []
   | .list a => regs cells vis a
   | .dict a => regs cells vis a
   | .con _ a => regs cells vis a
@@ -323,10 +323,9 @@ structure LoopOut where
 def resolveLoop (vis : Name → Bool) (ignoreErr : Bool) : List Pending → List (Cell × Ty) → LoopOut
   | [], cells => ⟨[], cells, false, [], false⟩
   | p :: ps, cells =>
-    -- typing returns the memoised value of an evaluated ForwardRef without looking names up
-    if (lookupCell p.cell cells).isSome || p.need.all vis then
-      let v := (lookupCell p.cell cells).getD p.val
-      let r := resolveLoop vis ignoreErr ps ((p.cell, v) :: cells)
+    -- typing evaluates afresh against the parser's namespace (localns is not globalns), memoised or not
+    if p.need.all vis then
+      let r := resolveLoop vis ignoreErr ps ((p.cell, p.val) :: cells)
       { r with resolved := true, popped := p.cell :: r.popped }
     else if ignoreErr then
       let r := resolveLoop vis ignoreErr ps cells
@@ -365,7 +364,10 @@ def resolveOwn (cfg : Cfg) (s : State) (k : Name) (ancs : List Name) : State × 
     else
       let r := resolveLoop (visOf s (if ps.selfVis then some k else none)) ps.ignoreErr ps.pending s.cells
       if r.raised then
-        ({ s with cells := r.cells, parsers := setP k { ps with pending := r.kept } s.parsers }, false)
+        -- fixes/C17-abort-keeps-pending.patch: nothing was rewritten, so nothing is popped either
+        -- (before: the names evaluated so far were popped although the fields still held their ForwardRefs)
+        if cfg.abortKeeps then ({ s with cells := r.cells }, false)
+        else ({ s with cells := r.cells, parsers := setP k { ps with pending := r.kept } s.parsers }, false)
       else
         let fields := if r.resolved then ps.fields.map (fun p => (p.1, resolveTy cfg r.cells p.2)) else ps.fields
         let parsers1 := setP k { ps with pending := r.kept, fields := fields } s.parsers
